@@ -99,7 +99,10 @@ func (p *PanicError) Message() any {
 
 // Next returns the next panic in the chain.
 func (p *PanicError) Next() *PanicError {
-	return &PanicError{p.p.Next()}
+	if next := p.p.Next(); next != nil {
+		return &PanicError{next}
+	}
+	return nil
 }
 
 // Recovered reports whether it has been recovered.
